@@ -21,6 +21,9 @@ import traceback
 
 ROOT = os.path.dirname(os.path.dirname(os.path.abspath(__file__)))
 REPO = os.environ.get("HV_REPO", "/repo")
+# A run against another tree (HV_REPO: seeded changes on scratch copies) must not overwrite the evidence and replay files of
+# the tree under verification: its outputs go to a scratch directory.
+OUT = ROOT if os.path.realpath(REPO) == "/repo" else os.path.join("/root/scratch", "hv_other_tree_output")
 
 DISCHARGED, REFUTED, UNDECIDED = "discharged", "refuted", "undecided"
 KINDS = ("proved", "arity_bounded", "exhaustive_finite", "bounded")
@@ -136,7 +139,7 @@ class Check:
 
     # ---- replay files --------------------------------------------------------------------
     def write_replay(self, o, extra=None):
-        d = os.path.join(ROOT, "replays", self.pid)
+        d = os.path.join(OUT, "replays", self.pid)
         os.makedirs(d, exist_ok=True)
         h = hashlib.sha1(o.name.encode()).hexdigest()[:12]
         path = os.path.join(d, f"{h}.json")
@@ -155,7 +158,7 @@ class Check:
             body.update(extra)
         with open(path, "w") as f:
             json.dump(body, f, indent=1, default=repr)
-        return os.path.relpath(path, ROOT)
+        return os.path.relpath(path, ROOT) if OUT == ROOT else path
 
     # ---- finish --------------------------------------------------------------------------
     def finish(self, write_ledger=False):
@@ -277,7 +280,7 @@ class Check:
             "wall_s": round(time.time() - self.t0, 3),
             "violations": len(violations),
         }
-        d = os.path.join(ROOT, "evidence")
+        d = os.path.join(OUT, "evidence")
         os.makedirs(d, exist_ok=True)
         with open(os.path.join(d, f"{self.pid}.json"), "w") as f:
             json.dump(ev, f, indent=1, default=repr)
@@ -285,7 +288,7 @@ class Check:
 
 def drop_evidence(pid):
     """On a checker crash no evidence is fabricated: a stale file is removed instead."""
-    p = os.path.join(ROOT, "evidence", f"{pid}.json")
+    p = os.path.join(OUT, "evidence", f"{pid}.json")
     if os.path.exists(p):
         os.remove(p)
 
